@@ -79,6 +79,14 @@ static void env_done(void)
     env_uref_mgr->refcount = env_rc[2];
     env_block_mgr->refcount = env_rc[3];
 #endif
+#ifdef ENV_COUNT_MGRS
+    /* C01: every manager is back to the references held by its creator(s): the harness (1) plus the
+     * managers built on top of it (umem: dictionary + block managers; udict: uref manager) */
+    VASSERT(uatomic_load(&env_block_mgr->refcount->refcount) == 1, "C01: block manager back to its creator's single reference");
+    VASSERT(uatomic_load(&env_uref_mgr->refcount->refcount) == 1, "C01: uref manager back to its creator's single reference");
+    VASSERT(uatomic_load(&env_udict_mgr->refcount->refcount) == 2, "C01: dictionary manager back to creator + uref manager");
+    VASSERT(uatomic_load(&env_umem_mgr->refcount->refcount) == 3, "C01: umem manager back to creator + its two client managers");
+#endif
     ubuf_mgr_release(env_block_mgr);
     uref_mgr_release(env_uref_mgr);
     udict_mgr_release(env_udict_mgr);
@@ -186,6 +194,10 @@ static struct env_slog env_slog[ENV_MAXEV];
 static unsigned env_nslog;
 static struct upipe_mgr env_sink_mgr;
 
+#ifdef ENV_SINK_HOOKS       /* online monitors supplied by the harness */
+static void env_on_sink_flowdef(int sink, bool accepted, struct uref *flow_def);
+static void env_on_sink_input(int sink, struct uref *uref);
+#endif
 static struct env_sink *env_sink_of(struct upipe *upipe)
 {
     return container_of(upipe, struct env_sink, upipe);
@@ -203,6 +215,9 @@ static void env_sink_input(struct upipe *upipe, struct uref *uref, struct upump 
     struct env_sink *s = env_sink_of(upipe);
     VASSERT(!s->dead, "input sent to a sink that was released");
     VASSERT(s->n_in < ENV_MAXIN, "harness capacity: sink inputs");
+#ifdef ENV_SINK_HOOKS
+    env_on_sink_input(s->id, uref);
+#endif
     s->in[s->n_in++] = uref;
     env_slog_add(s->id, SK_INPUT);
 }
@@ -213,6 +228,9 @@ static int env_sink_control(struct upipe *upipe, int command, va_list args)
     switch (command) {
         case UPIPE_SET_FLOW_DEF: {
             struct uref *flow_def = va_arg(args, struct uref *);
+#ifdef ENV_SINK_HOOKS
+            env_on_sink_flowdef(s->id, s->accept, flow_def);
+#endif
             if (!s->accept) {
                 s->n_flowdef_rej++;
                 env_slog_add(s->id, SK_FLOWDEF_REJECT);
